@@ -44,13 +44,18 @@ func renderTTMLRich(r *rng, cues []srtCue) []byte {
 	}
 	stylePool := [][2]string{{"color", r.pick("white", "#ff0000", "yellow")}, {"fontSize", "2"}, {"fontFamily", "sans"}, {"textAlign", r.pick("center", "left", "right", "start", "end")}, {"backgroundColor", "black"}, {"displayAlign", r.pick("after", "before", "center")}, {"fontStyle", "italic"}, {"fontWeight", "bold"}, {"textDecoration", "underline"}, {"origin", "10% 80%"}, {"extent", "80% 10%"}}
 	regionPool := [][2]string{{"origin", r.pick("10% 10%", "0% 85%")}, {"extent", r.pick("80% 10%", "100% 15%")}, {"displayAlign", "after"}, {"backgroundColor", "transparent"}, {"textAlign", "center"}, {"writingMode", "lrtb"}}
-	ns := r.intn(4)
+	ns := r.intn(6)
 	nr := r.intn(4)
 	b.WriteString("<styling>\n")
 	for i := 0; i < ns; i++ {
 		parent := ""
-		if i > 0 && r.chance(1, 2) {
-			parent = fmt.Sprintf(" style=\"s%d\"", r.intn(i))
+		if i > 0 && r.chance(2, 3) {
+			// mostly chains (s4 -> s3 -> s2 ...), sometimes a shared or distant parent
+			pi := i - 1
+			if r.chance(1, 3) {
+				pi = r.intn(i)
+			}
+			parent = fmt.Sprintf(" style=\"s%d\"", pi)
 		}
 		fmt.Fprintf(&b, "<style xml:id=\"s%d\"%s%s/>\n", i, parent, attrs(stylePool))
 	}
@@ -67,14 +72,24 @@ func renderTTMLRich(r *rng, cues []srtCue) []byte {
 		ms := t / 1e6
 		return fmt.Sprintf("%02d:%02d:%02d.%03d", ms/3600000, ms/60000%60, ms/1000%60, ms%1000)
 	}
-	for _, c := range cues {
+	prevRef := ""
+	for ci, c := range cues {
 		ref := ""
 		if nr > 0 && r.chance(2, 3) {
 			ref += fmt.Sprintf(" region=\"r%d\"", r.intn(nr))
 		}
 		if ns > 0 && r.chance(1, 2) {
-			ref += fmt.Sprintf(" style=\"s%d\"", r.intn(ns))
+			// the end of a chain more often than not
+			si := ns - 1
+			if r.chance(1, 3) {
+				si = r.intn(ns)
+			}
+			ref += fmt.Sprintf(" style=\"s%d\"", si)
 		}
+		if ci > 0 && r.chance(1, 3) {
+			ref = prevRef // consecutive cues sharing region and style
+		}
+		prevRef = ref
 		fmt.Fprintf(&b, "<p begin=\"%s\" end=\"%s\"%s%s>", stamp(c.Start), stamp(c.End), ref, attrs(stylePool[:3]))
 		for li, l := range c.Lines {
 			if li > 0 {
@@ -104,8 +119,11 @@ func suiteConvertRich(R *runner, r *rng) {
 	}
 	dsts := []string{"srt", "ssa", "ass", "stl", "ttml", "vtt"}
 	count := 0
-	for rep := 0; rep < N; rep++ {
+	for rep := -2; rep < N; rep++ {
 		for _, sf := range []string{"srt", "vtt", "ssa", "ttml"} {
+			if rep < 0 && sf != "ttml" {
+				continue
+			}
 			var src []byte
 			var want []plainCue
 			k := 0
@@ -170,6 +188,13 @@ func suiteConvertRich(R *runner, r *rng) {
 				doc, _, _ := renderSsa(r, d)
 				src = []byte(doc)
 			case "ttml":
+				if rep < 0 {
+					// crafted: inheritance chains of depth 4 whose ancestors are reachable only through the chain (from a cue's
+					// style, from a span, from a region's style)
+					src = []byte(craftedTTMLChains[rep+2])
+					want = []plainCue{{1e9, 2e9, []string{"leaf"}}, {3e9, 4e9, []string{"viaspan"}}, {5e9, 6e9, []string{"viaregion"}}}
+					break
+				}
 				cues := randSrtCues(r, 5, false)
 				for i := range cues {
 					for j := range cues[i].Lines {
@@ -202,7 +227,8 @@ func suiteConvertRich(R *runner, r *rng) {
 					continue // does not fit a TTI block / an STL timecode
 				}
 				count++
-				optimize := count%2 == 0
+				// styled TTML back to TTML always goes through Optimize as well: inheritance chains must survive it
+				optimize := count%2 == 0 || (sf == "ttml" && df == "ttml")
 				R.count("rich." + sf + "->" + df)
 				h := map[string]interface{}{"source": sf, "destination": df, "cues": want, "optimize": optimize, "entry": "library", "source_bytes": string(src)}
 				o := &obs{Suite: "convert", Group: "convert.rich." + sf, NoModel: true, NT: true, Input: fmt.Sprintf("rich %d %s %s %v %s", count, sf, df, optimize, hashBytes(src)), Human: h}
@@ -252,4 +278,30 @@ func suiteConvertRich(R *runner, r *rng) {
 			}
 		}
 	}
+}
+
+var craftedTTMLChains = []string{
+	`<?xml version="1.0" encoding="UTF-8"?>
+<tt xmlns="http://www.w3.org/ns/ttml" xmlns:tts="http://www.w3.org/ns/ttml#styling"><head><styling>
+<style xml:id="a0" tts:color="white"/><style xml:id="a1" style="a0"/><style xml:id="a2" style="a1"/><style xml:id="a3" style="a2"/>
+<style xml:id="b0" tts:fontSize="2"/><style xml:id="b1" style="b0"/><style xml:id="b2" style="b1"/>
+<style xml:id="c0" tts:fontFamily="sans"/><style xml:id="c1" style="c0"/><style xml:id="c2" style="c1"/>
+<style xml:id="unused"/>
+</styling><layout><region xml:id="r0" style="c2" tts:origin="10% 10%"/><region xml:id="r1"/></layout></head><body><div>
+<p begin="00:00:01.000" end="00:00:02.000" style="a3">leaf</p>
+<p begin="00:00:03.000" end="00:00:04.000"><span style="b2">viaspan</span></p>
+<p begin="00:00:05.000" end="00:00:06.000" region="r0">viaregion</p>
+</div></body></tt>
+`,
+	`<?xml version="1.0" encoding="UTF-8"?>
+<tt xmlns="http://www.w3.org/ns/ttml" xmlns:tts="http://www.w3.org/ns/ttml#styling"><head><styling>
+<style xml:id="a3" style="a2"/><style xml:id="a2" style="a1"/><style xml:id="a1" style="a0"/><style xml:id="a0" tts:color="white"/>
+<style xml:id="b2" style="b1"/><style xml:id="b1" style="b0"/><style xml:id="b0" tts:fontSize="2"/>
+<style xml:id="c2" style="c1"/><style xml:id="c1" style="c0"/><style xml:id="c0" tts:fontFamily="sans"/>
+</styling><layout><region xml:id="r0" style="c2"/></layout></head><body><div>
+<p begin="00:00:01.000" end="00:00:02.000" style="a3" region="r0">leaf</p>
+<p begin="00:00:03.000" end="00:00:04.000" style="a3" region="r0"><span style="b2">viaspan</span></p>
+<p begin="00:00:05.000" end="00:00:06.000" region="r0">viaregion</p>
+</div></body></tt>
+`,
 }
